@@ -57,6 +57,12 @@ CHECKS = {
     design_ref="DESIGN.md section 5 C08",
     note="Trusted: Coq kernel + VM; reification; the substituted bound is computed with the implementation's substitute_type (itself covered by C07); structural checks are harness code.",
     technique="Coq proof of the variance-choice logic + per-call kernel-checked bound derivations (translation validation)"),
+ "C10": dict(
+    category="proof",
+    text="unify_types / _update_type_var_map of src/ir/type_utils.py with get_bound_rec / to_type_variable_free are modelled in Types/Unify.v. Properties_C10.v proves for all tables, types, fuels and both matching modes: the answer never gives one variable two types (unify_keys_distinct, unify_conflict_detected, merge_conflict_detected: a second binding is accepted only if it is ==-equal to the first), only type variables are assigned and never None (unify_assigns_types), in supertype-matching mode the answer unifies the pattern with a type on the target's last-supertype chain (unify_supertype_mode), each assigned type satisfies its variable's variable-free bound up to Python equality (unify_bounds_upto; exact form under 'equality determines the bound', refuted otherwise by a primitive-flag witness), and the answer IS a unifier -- the pattern instantiated by it is the target up to open variables, an open bounded variable's component being an instance of its bound (unify_matches_partial, for patterns whose bounded variables have variable-free bounds and correct arities; the unrestricted statement is refuted by a repeated variable whose bound mentions another variable, weak form unify_matches_weak). Tie: correspondence on (target, pattern) pairs derived from each other (instances, one-edit perturbations, subclass instances for supertype mode, unrelated) over random class tables; every non-empty implementation answer is also judged by substituting it back with the real substitute_type.",
+    design_ref="DESIGN.md section 5 C10",
+    note="Trusted: Coq kernel + VM; hand-written model tied by correspondence (3500 pairs per quick run); class-name aliasing (Kotlin Array / SpecializedArray) passed as a table.",
+    technique="Coq proofs over the unification model + correspondence + substitute-back judge"),
 }
 
 NOT_APPLICABLE = {
@@ -64,7 +70,7 @@ NOT_APPLICABLE = {
  "C13": "The property is about CPython's pickle applied to ~40 IR classes; a Coq model would be a model of pickle and the only tie to the code would be the round-trip test itself (DESIGN.md section 6).",
 }
 
-PENDING = ["C01","C03","C04","C05","C10","C11","C12","C18"]
+PENDING = ["C01","C03","C04","C05","C11","C12","C18"]
 
 def main():
     checks = []
